@@ -798,6 +798,17 @@ def rule_E10(ctx):
         attrs = {y.attr for s in pbody for y in ast.walk(s) if isinstance(y, ast.Attribute) and isinstance(y.value, ast.Name) and y.value.id == p}
         res[nm] = (f, branch, attrs, pbody)
     ext = res['extend']
+    # nothing returns before the array.array branch is reached: an early "nothing to do" exit would let a mismatching (empty) array through
+    early = [x for x in own_walk(ext[0].node) if isinstance(x, ast.Return) and x.lineno < ext[1].lineno
+             and not any(isinstance(i, ast.If) and any(isinstance(c, ast.Call) and isinstance(c.func, ast.Name) and c.func.id == 'isinstance' and len(c.args) == 2
+                                                       and ast.unparse(c.args[1]) in ('Array', 'str', 'bytes', 'bytearray', 'Bits', 'BitArray')
+                                                       for c in ast.walk(G.pos_if(i)[0]))
+                         and any(x is y for b in G.pos_if(i)[1] for y in ast.walk(b)) for i in own_walk(ext[0].node))]
+    if early:
+        r.fail(ext[0].key, early[0], 'Array.extend can return before the array.array branch checks the kind and width of the foreign array: a mismatching '
+               'array.array is accepted on that path instead of raising ValueError', loc=ext[0].loc(early[0]))
+    else:
+        r.ok('extend: no exit before the array.array checks')
     # the byte width of the foreign items must be compared with this Array's item width before the bytes are appended
     if 'itemsize' not in ext[2]:
         r.fail(ext[0].key, 'extend(array.array): itemsize not consulted', "Array.extend trusts the typecode's nominal width from the struct table and never looks at "
